@@ -18,7 +18,7 @@ import (
 // started for the connection is still alive.
 
 var c20Ops = []string{"write", "read", "closeread", "netconn", "abandonWriter", "abandonReader"}
-var c20Enders = []string{"CloseEcho", "CloseNoEcho", "CloseNow", "PeerCloseThenClose", "ProtoErrThenClose", "CtxExpiryThenCloseNow", "TransportFailThenClose", "NetConnClose"}
+var c20Enders = []string{"CloseEcho", "CloseNoEcho", "CloseNow", "PeerCloseThenClose", "ProtoErrThenClose", "CtxExpiryThenCloseNow", "TransportFailThenClose", "NetConnClose", "CloseOversizeReason", "CloseUnsendableCode"}
 
 type c20Params struct {
 	K     connCfg
@@ -112,6 +112,10 @@ func c20Setup(prm c20Params) func(c *fw.Ctx, name string) explore.Setup {
 					} else {
 						st.endErr = conn.Close(websocket.StatusNormalClosure, "")
 					}
+				case "CloseOversizeReason":
+					st.endErr = conn.Close(websocket.StatusInternalError, strings.Repeat("r", 124))
+				case "CloseUnsendableCode":
+					st.endErr = conn.Close(websocket.StatusCode(1006), "")
 				case "CloseNow":
 					st.endErr = conn.CloseNow()
 				case "PeerCloseThenClose":
